@@ -2,8 +2,6 @@ from registry import H
 
 LAYOUT = "crates/libs/sciparse/src/proto/payload/scmp/layout.rs"
 MODEL = "crates/libs/sciparse/src/proto/payload/scmp/model.rs"
-ECHO = "crates/scion-stack/src/stack/scmp_handler/echo.rs"
-ERROR = "crates/scion-stack/src/stack/scmp_handler/error.rs"
 
 PROP = {
     "level": "model_checking",
@@ -11,27 +9,27 @@ PROP = {
         "size budget (proved class, loop-free, off over all of usize, hdr over 0..=1020): for each of the five SCMP error "
         "layouts from_offending_packet_length(off, hdr): hdr + size_bytes() <= 1232, quoted length <= off and == off when it "
         "fits, quote range = [fixed header, size)",
-        "ScionScmpPacket::new(..error message..) + try_encode_to_vec for each error kind, any v4/v6 addresses, empty path: "
-        "length <= 1232, NextHdr/PayloadLen/type consistent, quote = prefix of the offending packet (whole when it fits), "
-        "RFC 1071 checksum over pseudo header + message verifies (spec written in the harness); whole-packet size budget "
-        "for offenders of any length <= 9216",
-        "DefaultEchoHandler::handle: Some <=> SCMP (NextHdr 202) EchoRequest (type 128, >= 8 B) whose addresses decode and "
-        "whose path reverses; reply = EchoReply(129/0) with equal id/seq/data, src/dst swapped, reversed path; every other "
-        "SCMP type/code, truncated or non-SCMP input => None",
-        "ScmpErrorHandler::handle returns None for every input (no reply to SCMP errors)",
+        "ScionScmpPacket::new(..error message..) for each of the five error kinds, any v4/v6 addresses, empty path, offender of "
+        "any length <= 9216: required_size() (= encoded length) <= 1232, quote <= offender and whole offender when it fits; "
+        "thorough: encoded ParameterProblem packet bytes (NextHdr/PayloadLen/type consistent, quote = offender bytes)",
     ],
     "not_decided": [
         "delivery of received SCMP errors to application receivers without affecting datagram delivery (async socket "
         "receive loop, channels)",
-        "byte-level prefix/checksum for quotes longer than the harness bound (16 B / 6 B); truncating quotes (offender > "
-        "~1170 B) are covered by the size contracts only",
-        "echo requests over standard paths (path reversal of the model; see C12) and pocketscion's maybe_create_scmp_reply "
-        "(shares ScionScmpPacket::new + encoders, not driven separately)",
+        "checksum validity by Kani: the c14_cksum_* harnesses (RFC 1071 spec over pseudo header + message, written in "
+        "/verif/kani/sciparse/c14_scmp_model.rs) exceed 420-900 s / 10 GB in CBMC (u16 pointer-cast summation in "
+        "ChecksumDigest::add_slice + symbolic buffers) and are NOT registered; the checksum defect they target is demonstrated "
+        "by a plain cargo test (fixes/scmp-checksum.md). Byte-level quote only for ParameterProblem with a 4-byte offender "
+        "(thorough tier); the other four kinds share the macro-generated harnesses, unregistered for cost; truncating quotes "
+        "(offender > ~1170 B) are covered by the size contracts only",
+        "clauses 3 and 4 (DefaultEchoHandler::handle, ScmpErrorHandler::handle): contract modules are written "
+        "(/verif/kani/scion_stack/c14_echo.rs, c14_error.rs) but Kani 0.68 aborts with an internal compiler error "
+        "(kani-compiler/src/intrinsics.rs:243, intrinsic signature assertion) while collecting the reachable items of any "
+        "harness that calls a handler in crate scion-stack; a trivial harness in the same module compiles. Tool limit: "
+        "not registered, not decided",
+        "pocketscion's maybe_create_scmp_reply (shares ScionScmpPacket::new + encoders, not driven separately)",
     ],
-    "assumptions": [
-        "echo/error handler inputs are valid ScionRawPacketView values (assume(try_from_slice(d).is_ok()) = type invariant "
-        "of the argument)",
-    ],
+    "assumptions": [],
     "trusted": [],
     "units": [
         {
@@ -61,27 +59,13 @@ PROP = {
             "anchors": [(MODEL, ["encode_unchecked", "required_size", "ChecksumDigest::with_pseudoheader("])],
             "functions": ["ScionScmpPacket::new", "ScionPacket::try_encode_to_vec",
                           "<Scmp*Error as PayloadEncode>::encode_unchecked"],
-            "harnesses": [],
-        },
-        {
-            "id": "scion-stack-echo", "engine": "kani", "package": "scion-stack",
-            "crate_dir": "crates/scion-stack",
-            "module": "/verif/kani/scion_stack/c14_echo.rs",
-            "mod_path": "stack::scmp_handler::echo::verif_c14_echo",
-            "hooks": [(ECHO, "mod verif_c14_echo;")],
-            "anchors": [(ECHO, ["try_echo_reply", "handle"])],
-            "functions": ["DefaultEchoHandler::handle"],
-            "harnesses": [],
-        },
-        {
-            "id": "scion-stack-scmp-error", "engine": "kani", "package": "scion-stack",
-            "crate_dir": "crates/scion-stack",
-            "module": "/verif/kani/scion_stack/c14_error.rs",
-            "mod_path": "stack::scmp_handler::error::verif_c14_error",
-            "hooks": [(ERROR, "mod verif_c14_error;")],
-            "anchors": [(ERROR, ["handle"])],
-            "functions": ["ScmpErrorHandler::handle"],
-            "harnesses": [],
+            "harnesses": [
+                H("c14_model_size_budget_l9216", "B", bound="offender length symbolic 0..=9216 (zero bytes), all 5 kinds, any v4/v6 addresses, empty path",
+                  what="whole packet required_size() <= 1232, quote <= offender, whole offender when it fits (loop-free)", timeout=600),
+                H("c14_model_parameter_problem_q4", "B", tier="thorough",
+                  bound="offender = 4 B symbolic, IPv4->IPv4 addresses (bytes, ISD-AS symbolic), empty path",
+                  what="encoded ParameterProblem packet: size, NextHdr/PayloadLen/type/code/pointer, quote = offender bytes", timeout=1800),
+            ],
         },
     ],
 }
